@@ -178,6 +178,9 @@ func genC06(r *core.Rand, run int) *MuxScenario {
 		if tr.proto != "http" && r.Chance(1, 8) {
 			sp.Method = "files"
 		}
+		if tr.codec == "json" && r.Chance(1, 4) {
+			sp.Method = "chat" // string fields: quotes, backslashes, braces and multi-byte runes inside JSON strings
+		}
 	}
 	mi := methods[sp.Method]
 	sp.Compress = tr.proto != "ws" && r.Chance(1, 4)
@@ -209,6 +212,13 @@ func genC06(r *core.Rand, run int) *MuxScenario {
 		for i := range sp.Msgs {
 			if sp.Msgs[i].Size > 300 {
 				sp.Msgs[i].Size = 300
+			}
+		}
+	}
+	if sp.Compress && tr.proto != "http" {
+		for i := range sp.Msgs {
+			if r.Chance(1, 4) || sp.Msgs[i].Size == 0 && r.Chance(1, 2) {
+				sp.Msgs[i].Plain = true
 			}
 		}
 	}
